@@ -251,7 +251,9 @@ CLAIMS = {
              "leaves, as not_ builds them; non-empty domain): c05_single_variable_tree - each of any number of consecutive evaluations "
              "of the query object by the L2 machine (Machine.lean: caching branches of Comparator / AND / ElseIf, coverage poisoning, "
              "update_cache, yield_final_output_from_cache, the duplicate tracking sets) returns exactly the L1 rows, in order - and "
-             "c05_single_variable_tree_on_off (the same rows as with the cache disabled). Invariant per node: a cache specification "
+             "c05_single_variable_tree_on_off (the same rows as with the cache disabled); c05_switch_off_after_cached_conj (conjunctive "
+             "queries over any number of variables: after n cached evaluations an evaluation with the switch OFF returns the L1 "
+             "rows - the switch is read at evaluation time and nothing the cached evaluations stored is consulted). Invariant per node: a cache specification "
              "(every stored pair is object identity -> the node's is_false for it, false entries only where false outputs are asked "
              "for) together with 'every stored duplicate key clashes with the object at hand' (MachineTree.lean: bound_ok_y; "
              "MachineTreeTop.lean: top_ok_y; the earlier conjunctive theorem c05_single_variable_conj is kept). NOT proved: "
